@@ -232,10 +232,25 @@ class InterpMixin(object):
             return default
         self.py_raise(AttributeError, "'%s' object has no attribute '%s'" % (obj.cls.__name__, name))
 
+    def bump_elem(self, obj):
+        """a MUTABLE member of a symbolic sequence is about to be assigned to: its current reference keeps
+        denoting the pre-assignment content (a frozen snapshot); the object gets a fresh reference, tied to
+        its new field values, the next time a list that names it is read (SSeq.term)"""
+        if obj.ref is None:
+            return
+        snap = self.clone(obj, deep=False)
+        snap.frozen, snap.mutable_elem = True, False
+        if obj.elem_kind is not None:
+            self.elem_cache.setdefault(obj.elem_kind.name, {})[obj.ref.get_id()] = (obj.ref, snap)
+        obj.ref = None
+        obj.frozen = False
+
     def setattr_(self, obj, name, value):
         if isinstance(obj, SObj):
             if obj.frozen:
-                self.unsupported("mutation of an object already placed in a symbolic sequence")
+                if not obj.mutable_elem:
+                    self.unsupported("mutation of an object already placed in a symbolic sequence")
+                self.bump_elem(obj)
             cattr = self.class_lookup(obj.cls, name)
             if isinstance(cattr, property):
                 if cattr.fset is None:
